@@ -92,7 +92,8 @@ def per_listener(script, out):
                 n, v = item.split("=")
                 seqs.setdefault(n, []).append(v)
         if l.startswith("sample ") or l.startswith("force "): samples.append(o.split(" | ")[0])
-        if o.startswith("PANIC") or o.startswith("HANG"): samples.append(o.split(" | ")[0][:20])
+        if o.startswith("PANIC"): samples.append(o.split(" | ")[0][:20])
+        if o.startswith("HANG") and "HANG" not in samples: samples.append("HANG")      # a hang is one outcome, not one per line
     return seqs, samples
 
 
